@@ -12,7 +12,15 @@ the empty string as value -, absent, or present with an empty list / map; placeh
 (kind tpl); and GROUPS: several starts per driver process, several components per start, several bindings per component,
 with the tag argument mapper=<tag key> on some bindings and struct types whose yaml / json / mapstructure tag names differ
 from the Go field names (Values.gtype / bound_type: a property's decoder reads the tags its OWN mapper argument names,
-yaml by default).  Every group runs in a process of its own, so a replay of a group is self-contained."""
+yaml by default).  Every group runs in a process of its own, so a replay of a group is self-contained.
+
+SHARING groups (group["mutate"]): several fields, components and starts bind the SAME keys (maps and lists of the
+configuration, into map[string]any / []any / any / typed maps, slices, structs, by prefix, value placeholder and prop), and
+a post-processor of the driver plays "component that changes what it was given": it visits every field as soon as its
+component is initialised, takes the observation and THEN scribbles over the bound map / slice in place.  Every observation
+is therefore made after all earlier holders of the same configured value changed their copies, and Configure.Get is read
+again afterwards on the same App (Check_C17.cget2 / config_kept).  By default the driver changes what is reachable
+through declared container types; VERIF_C17_DEEP=1 also goes into the maps / lists held in interface-typed positions."""
 import copy
 import glob
 import json
@@ -620,6 +628,8 @@ def coq_opt_bytes(x):
 
 
 KIND_NO = {"key": 0, "lit": 1, "tpl": 2}
+# sharing groups: also change the maps / lists held in interface-typed positions of a bound value
+DEEP = os.environ.get("VERIF_C17_DEEP", "") not in ("", "0")
 
 
 def coq_case(c, o, fix):
@@ -631,11 +641,14 @@ def coq_case(c, o, fix):
         if o.get("pre") is None:
             raise Odd("the harness could not pre-fill the field")
         pre = "(Some %s)" % fval_coq(o["pre"])      # as read back from the pre-filled Go value
-    return "mkCase %d %d %s %s %s %s %s %s %s %s %s %s %s %s %s %s %s" % (
+    get2 = "None"
+    if o.get("get2") is not None:
+        get2 = "(Some %s)" % cval_coq(o["get2"])
+    return "mkCase %d %d %s %s %s %s %s %s %s %s %s %s %s %s %s %s %s %s" % (
         c["id"], kind, vlib.coq_bool(c["req"]), vlib.coq_bytes(c["key"]), v, vlib.coq_bytes(tag_text(c)),
         type_coq(c["type"]), vlib.coq_bool(fix), obs_coq(o.get("prefix")), obs_coq(o.get("value")), obs_coq(o.get("prop")),
         pre, obs_coq(o.get("fresh")), coq_opt_bytes(c.get("dflt")), vlib.coq_bytes(c.get("pfx", "")),
-        vlib.coq_bytes(c.get("sfx", "")), coq_opt_bytes(c.get("mapper")))
+        vlib.coq_bytes(c.get("sfx", "")), coq_opt_bytes(c.get("mapper")), get2)
 
 
 # ------------------------------------------------------------------------------------------------
@@ -797,6 +810,81 @@ def gen_group(rng, gid):
     return {"gid": gid, "starts": starts}
 
 
+# ---- sharing groups: the same keys bound several times, every holder scribbles over what it was given ------------
+
+ANY_WORDS = ["eu", "gold", "primary", "a.example.org", "x:y", "v1.2.3", "hello", "UPPER lower", "it's", "eu-west-1"]
+
+
+def gen_shared_value(rng, deep):
+    """(value, [types that bind it on every route]) - maps and lists, the containers a decoder could hand out as they are"""
+    r = rng.random()
+    str_map = lambda n: ["m", [[k, ["s", rng.choice(ANY_WORDS)]] for k in rng.sample(SUBKEYS, n)]]
+    if r < 0.30:                                       # map of strings
+        v = str_map(rng.choice([1, 2, 2, 3, 4]))
+        fields = [gen_field(rng, i, kv[0], ["string"], renamed=0.3) for i, kv in enumerate(v[1])]
+        ts = [["map", ["any"]], ["map", ["any"]], ["any"], ["map", ["string"]], ["ptr", ["map", ["any"]]],
+              ["struct", [f[:3] for f in fields]]]
+    elif r < 0.50:                                     # list of strings
+        v = ["l", [["s", rng.choice(ANY_WORDS)] for _ in range(rng.choice([1, 2, 3, 3, 4]))]]
+        ts = [["slice", ["any"]], ["slice", ["any"]], ["any"], ["slice", ["string"]], ["ptr", ["slice", ["any"]]]]
+    elif r < 0.66:                                     # list of ints (interface-typed targets get them on the prefix route only:
+        v = ["l", [["i", rng.choice([30, 10, 20, 5, 8080, 443, 1])] for _ in range(rng.choice([2, 3, 3, 4]))]]
+        ts = [["slice", ["int", 0]], ["slice", ["int", 64]], ["slice", ["string"]], ["slice", ["float", 64]]]
+    elif r < 0.76:                                     # map of ints / bools into typed maps
+        if rng.random() < 0.5:
+            v = ["m", [[k, ["i", rng.choice([1, 7, 64, 8080])]] for k in rng.sample(SUBKEYS, rng.choice([1, 2, 3]))]]
+            ts = [["map", ["int", 0]], ["map", ["string"]], ["map", ["int", 64]]]
+        else:
+            v = ["m", [[k, ["b", rng.random() < 0.5]] for k in rng.sample(SUBKEYS, rng.choice([1, 2, 3]))]]
+            ts = [["map", ["bool"]], ["map", ["any"]], ["any"]]
+    elif r < 0.88:                                     # map of lists / map of maps of strings
+        if rng.random() < 0.5:
+            v = ["m", [[k, ["l", [["s", rng.choice(ANY_WORDS)] for _ in range(rng.choice([1, 2, 3]))]]]
+                       for k in rng.sample(SUBKEYS, rng.choice([1, 2, 3]))]]
+            ts = [["map", ["slice", ["string"]]], ["map", ["slice", ["any"]]], ["map", ["any"]], ["any"]]
+        else:
+            v = ["m", [[k, str_map(rng.choice([1, 2]))] for k in rng.sample(SUBKEYS, rng.choice([1, 2, 3]))]]
+            ts = [["map", ["map", ["string"]]], ["map", ["map", ["any"]]], ["map", ["any"]], ["any"]]
+    else:                                              # list of maps / list of lists
+        if rng.random() < 0.5:
+            v = ["l", [str_map(rng.choice([1, 2])) for _ in range(rng.choice([1, 2, 3]))]]
+            ts = [["slice", ["map", ["string"]]], ["slice", ["map", ["any"]]], ["slice", ["any"]], ["any"]]
+        else:
+            v = ["l", [["l", [["s", rng.choice(ANY_WORDS)] for _ in range(rng.choice([1, 2]))]] for _ in range(rng.choice([2, 3]))]]
+            ts = [["slice", ["slice", ["string"]]], ["slice", ["slice", ["any"]]], ["slice", ["any"]], ["any"]]
+    return v, ts
+
+
+def gen_sharing_group(rng, gid, deep):
+    """1-2 starts x 2-3 components x 1-3 bindings over 1-3 SHARED keys; every key is bound at least twice per start"""
+    nkeys = rng.choice([1, 1, 2, 2, 3])
+    shared = []
+    for k in range(nkeys):
+        v, ts = gen_shared_value(rng, deep)
+        shared.append(("k%d" % k if rng.random() < 0.5 else "s%d.val" % k, v, ts))
+    starts = []
+    for _ in range(rng.choice([1, 1, 2])):
+        comps = []
+        ncomps = rng.choice([2, 2, 3])
+        picks = []
+        for ci in range(ncomps):
+            picks.append([rng.randrange(nkeys) for _ in range(rng.choice([1, 2, 2, 3]))])
+        flat = [x for p_ in picks for x in p_]
+        for k in range(nkeys):                           # every key at least twice
+            while flat.count(k) < 2:
+                picks[rng.randrange(ncomps)].append(k)
+                flat.append(k)
+        for p_ in picks:
+            cases = []
+            for k in p_:
+                key, v, ts = shared[k]
+                c = mk_key_case(rng, copy.deepcopy(v), copy.deepcopy(rng.choice(ts)), req=True, key=key, stream="sharing-group")
+                cases.append(c)
+            comps.append(cases)
+        starts.append({"comps": comps})
+    return {"gid": gid, "starts": starts, "mutate": True, "deep": deep}
+
+
 def group_cases(g):
     return [c for st in g["starts"] for comp in st["comps"] for c in comp]
 
@@ -872,6 +960,8 @@ def load_corpus():
         c = json.load(open(f))
         if "group" in c:                                 # several starts x components x bindings, one process
             g = {"gid": len(groups), "starts": c["group"]["starts"], "corpus_file": os.path.basename(f)}
+            if c["group"].get("mutate"):                 # a sharing group: holders scribble over what they were given
+                g["mutate"], g["deep"] = True, DEEP
             for gc in group_cases(g):
                 gc["stream"] = "corpus-group"
             groups.append(g)
@@ -906,21 +996,28 @@ def go_case(c, with_yaml=True):
 def start_yaml(st):
     """one document for all bindings of a start (their keys have distinct first segments)"""
     parts = ['"other": {"key": 1}']
+    seen = {}
     for comp in st["comps"]:
         for c in comp:
             if c["kind"] != "lit" and not c.get("absent"):
+                if c["key"] in seen:                     # sharing groups: several bindings of one key, one configured value
+                    if seen[c["key"]] != c["value"]:
+                        raise ValueError("two values for key %s in one start" % c["key"])
+                    continue
+                seen[c["key"]] = c["value"]
                 parts.append(yaml_doc(c["key"], c["value"]).strip()[1:-1])
     return "{" + ", ".join(parts) + "}\n"
 
 
 def go_group(g):
-    return {"gid": g["gid"], "starts": [{"yaml": start_yaml(st),
+    return {"gid": g["gid"], "mutate": bool(g.get("mutate")), "deep": bool(g.get("deep")),
+            "starts": [{"yaml": start_yaml(st),
                                          "comps": [{"cases": [go_case(c, False) for c in comp]} for comp in st["comps"]]}
                                         for st in g["starts"]]}
 
 
 DEFS = {"M": "mismatches", "V": "violations", "K": "known", "U": "unmodelled", "NT": "count_nontrivial",
-        "DC": "domain_counts", "PC": "prefill_counts", "CC": "class_counts"}
+        "DC": "domain_counts", "PC": "prefill_counts", "CC": "class_counts", "SC": "sharing_counts"}
 NCC = 11
 
 
@@ -954,6 +1051,8 @@ def evaluate(ctx, binp, cases, tag, groups=()):
         shown = {"gid": g["gid"], "starts": [{"yaml": sg["yaml"], "components": st["comps"]}
                                              for st, sg in zip(g["starts"], gg["starts"])],
                  "observed": go_["outs"]}
+        if g.get("mutate"):
+            shown["mutate"], shown["deep"] = True, bool(g.get("deep"))
         for c, o in zip(gcs, go_["outs"]):
             by_id[c["id"]] = {"case": c, "observed": o, "group": shown}
             try:
@@ -971,6 +1070,8 @@ def evaluate(ctx, binp, cases, tag, groups=()):
     out["PC"] = [sum(pc[i::5]) for i in range(5)]
     cc = out["CC"]
     out["CC"] = [sum(cc[i::NCC]) for i in range(NCC)]
+    sc = out["SC"]
+    out["SC"] = [sum(sc[i::4]) for i in range(4)]
     out["odd"] = odd
     return by_id, out
 
@@ -1101,7 +1202,10 @@ def shrink_candidates(c):
 
 def regroup(shown):
     """the replayable form of a group as it is written to a replay file -> the generator's form"""
-    return {"gid": shown.get("gid", 0), "starts": [{"comps": copy.deepcopy(st["components"])} for st in shown["starts"]]}
+    g = {"gid": shown.get("gid", 0), "starts": [{"comps": copy.deepcopy(st["components"])} for st in shown["starts"]]}
+    if shown.get("mutate"):
+        g["mutate"], g["deep"] = True, bool(shown.get("deep"))
+    return g
 
 
 def wt_shrinks(c):
@@ -1156,7 +1260,7 @@ def group_shrink_candidates(g, target):
     for si, st in enumerate(g["starts"]):
         for ci, comp in enumerate(st["comps"]):
             for ki, c in enumerate(comp):
-                if c["kind"] == "lit":
+                if c["kind"] == "lit" or g.get("mutate"):   # bindings of a sharing group share their configured values
                     continue
                 for sc in wt_shrinks(c):
                     variant(lambda d, si=si, ci=ci, ki=ki, sc=sc: (d["starts"][si]["comps"][ci].__setitem__(ki, sc),
@@ -1213,6 +1317,7 @@ def run(ctx):
     binp = vlib.go_build(ctx, "./cmd/c17")
     n = 3000 if ctx.quick() else 30000
     ngroups = 320 if ctx.quick() else 3200
+    nsharing = 160 if ctx.quick() else 1600
     corpus, corpus_groups = load_corpus()
     cases = corpus
     groups = []
@@ -1226,6 +1331,7 @@ def run(ctx):
     else:
         cases = cases + gen_cases(ctx, n)
         groups = corpus_groups + [gen_group(ctx.rng, len(corpus_groups) + g) for g in range(ngroups)]
+        groups += [gen_sharing_group(ctx.rng, len(groups) + g, DEEP) for g in range(nsharing)]
     for i, c in enumerate(cases):
         c["id"] = i
     singles = list(cases)
@@ -1289,7 +1395,14 @@ def run(ctx):
                               "a tpl binding one field value:\"<pfx>${key[:dflt]}<sfx>\"); 'case' is the binding whose fields ended "
                               "different from what its own tag, key and configured value determine; group.observed lists the "
                               "observations of all bindings in order (strings and map keys are hex); struct fields are "
-                              "[Go name, yaml tag, type, {further struct tags}]")
+                              "[Go name, yaml tag, type, {further struct tags}]" +
+                              ("; group.mutate: bindings of one key share ONE configured value, and a post-processor of the "
+                               "driver visits every field (component by component as they are initialised, fields in order), "
+                               "takes the observation listed here and THEN changes the bound map / slice in place (first key "
+                               "overwritten, a key added, the last key deleted; elements reversed, the first overwritten%s); "
+                               "observed.get2 is Configure.Get(key) on the same App after the start, which must equal "
+                               "observed.get" % ("; deep: also inside interface-typed positions" if entry["group"].get("deep") else "")
+                               if entry["group"].get("mutate") else ""))
         return cur
 
     def shrink(entry):
@@ -1325,7 +1438,7 @@ def run(ctx):
         more = gen_cases(ctx, 1500)
         for i, c in enumerate(more):
             c["id"] = i
-        gs = [gen_group(ctx.rng, g) for g in range(200)]
+        gs = [gen_group(ctx.rng, g) for g in range(200)] + [gen_sharing_group(ctx.rng, 200 + g, DEEP) for g in range(100)]
         number_groups(gs, len(more))
         b2, r2 = evaluate(ctx, binp, more, "widen", gs)
         bad = [i for i in r2["V"] if i not in r2["K"]]
@@ -1487,6 +1600,23 @@ def run(ctx):
     mp["measured in Coq: [bindings with a mapper argument; ... whose bound type differs from the yaml reading; bindings "
        "without one whose yaml tags rename a field; ... that bound a value by prefix]"] = cc[7:]
 
+    sgroups = [g for g in groups if g.get("mutate")]
+    sh = {"sharing groups (each in a process of its own; every holder changes its bound maps / slices in place right after "
+          "it was observed)": len(sgroups),
+          "mode": "deep (also inside interface-typed positions; VERIF_C17_DEEP=1)" if DEEP else
+                  "declared container types only (maps / lists held in interface-typed positions are left alone)",
+          "bindings (three routes each)": sum(len(group_cases(g)) for g in sgroups),
+          "bindings per key and start": hist(n for g in sgroups for st in g["starts"] for n in
+                                             __import__("collections").Counter(c["key"] for comp in st["comps"] for c in comp).values()),
+          "starts per group": hist(len(g["starts"]) for g in sgroups),
+          "by field type": hist(type_kind(c["type"]) + ("<" + type_kind(c["type"][1]) + ">" if c["type"][0] in ("map", "slice") else "")
+                                for g in sgroups for c in group_cases(g)),
+          "by configured value": hist({"m": "map", "l": "list"}.get(c["value"][0], c["value"][0]) + " of " +
+                                      "/".join(sorted({{"m": "map", "l": "list", "s": "string", "i": "int", "b": "bool"}.get(x[0], x[0])
+                                                       for x in (c["value"][1] if c["value"][0] == "l" else [kv[1] for kv in c["value"][1]])}))
+                                      for g in sgroups for c in group_cases(g)),
+          "measured in Coq: [bindings with Configure.Get read again after the scribbling; ... whose configured value is a map / "
+          "list; ... bound ok by prefix; ... whose field type takes the configured value as it is (embed)]": res["SC"]}
     pc = res["PC"]
     pre["measured in Coq: pre-filled / something bound and Run ok / ... and the field ended different from the default / "
         "nothing bound and the default stayed / bound ok inside the modelled fragment (compared with decode_weak)"] = pc
@@ -1517,7 +1647,8 @@ def run(ctx):
         "input_distribution": {"value_kinds": vk, "top_level_type_kinds": tk, "streams": streams,
                                "route_outcomes(prefix/value/prop)": routes,
                                "high_precision_floats": precise, "prefilled_fields": pre,
-                               "placeholder_defaults_and_templates": dfl, "mapper_arguments_and_groups": mp},
+                               "placeholder_defaults_and_templates": dfl, "mapper_arguments_and_groups": mp,
+                               "sharing_groups": sh},
         "cases": len(cases),
         "distinct_cases": len(distinct),
         "nontrivial_cases_coq": res["NT"],
@@ -1537,6 +1668,10 @@ def run(ctx):
                                     "type) is evaluated",
                                     "map keys are lower-case identifiers (viper folds case); struct fields are exported",
                                     "literals are generated inside the tag grammar: no top-level comma (C19), no ${ / #{ (C16/C18)",
+                                    "sharing groups change bound values through reflection in a driver post-processor "
+                                    "(PostProcessAfterInitialization), standing in for components that modify what they were given in "
+                                    "Init; by default only what is reachable through declared map / slice / pointer / struct types is "
+                                    "changed, VERIF_C17_DEEP=1 also changes maps / lists held in interface-typed positions",
                                     "bindings of a group are well-typed (every route succeeds), so that one binding cannot fail the "
                                     "start for the others; conversions and failures are exercised one binding per start",
                                     "a failing oracle counts as a known finding only if the case lies in a class KF-C17a..i AND "
